@@ -27,6 +27,7 @@ fn streams() -> Vec<Stream> {
         Stream { name: "scenarios", count: (25_000, 800_000), exhaustive: false, run: |c, r, _| scenario(c, r, Focus::default(), c07_monitor) },
         Stream { name: "scenarios-tight", count: (20_000, 600_000), exhaustive: false, run: tight },
         Stream { name: "add-output-edge", count: (30_000, 800_000), exhaustive: false, run: add_output_edge },
+        Stream { name: "scenarios-squeezed", count: (20_000, 600_000), exhaustive: false, run: squeezed },
         Stream { name: "output-builder-min-coin", count: (40_000, 1_000_000), exhaustive: false, run: output_builder_min_coin },
     ]
 }
@@ -34,6 +35,28 @@ fn streams() -> Vec<Stream> {
 fn tight(c: &mut Ctx, r: &mut Rng, _i: u64) {
     let f = Focus { small_limits: 12, assets: 12, many_assets: 9, mint: 7, plutus: 2, ..Focus::default() };
     scenario(c, r, f, c07_monitor)
+}
+
+/// the size limit is only interesting at the limit: a history is run once to learn the size S of the
+/// transaction it builds, then again (same random stream) with max_tx_size a little below S - the builder
+/// must refuse, or build something that fits; an estimate that forgets a few bytes lets S through
+fn squeezed(c: &mut Ctx, r: &mut Rng, _i: u64) {
+    let f = Focus { plutus: 8, ..Focus::default() };
+    let mut r1 = r.clone();
+    let size = match crate::scen::run_scenario(&mut r1, ring(c), f.clone()).and_then(|o| o.tx_bytes.map(|b| b.len() as u64)) {
+        Some(s) => s,
+        None => {
+            c.bucket("squeeze.first-run-built-nothing");
+            return;
+        }
+    };
+    let k = *r1.pick(&[1u64, 1, 2, 4, 9, 20, 45, 100]);
+    if size <= k + 200 {
+        return;
+    }
+    c.bucket("squeeze.second-run");
+    let f2 = Focus { max_tx_size: Some(size - k), ..f };
+    scenario(c, r, f2, c07_monitor)
 }
 
 const CPBS: [u64; 6] = [0, 1, 4310, 34_482, 1 << 20, 1 << 40];
